@@ -23,7 +23,7 @@ PID = "C03"
 FORMS = {"PREFIX": "prefix", "INFIX": "infix", "POSTFIX": "postfix", "LEFT_FENCE": "lfence", "RIGHT_FENCE": "rfence"}
 CLASS_SYM = {"=": "=", "<": "<", "+": "+", "-": "-", "x": "×", ",": ",", "~": "¬", "!": "!", "!!": "!!", "(": "(", ")": ")", "?": "☺", "^": "∧", ";": ";", "|": "|", "||": "‖"}
 OPERANDS = "abcwxyz"
-CONTEXTS = ["top", "sqrt", "num", "exp", "cell", "under"]
+CONTEXTS = ["top", "sqrt", "num", "exp", "cell", "under", "detsub"]
 EMBELLISHERS = ("msub", "msup", "msubsup", "munder", "mover", "munderover", "mmultiscripts")
 INVISIBLE = {"\u2061", "\u2062", "\u2063", "\u2064"}
 
@@ -68,7 +68,9 @@ def wrap(body, ctx):
     row = f"<mrow>{body}</mrow>"
     return {"top": f"<math>{body}</math>", "sqrt": f"<math><msqrt>{body}</msqrt></math>", "num": f"<math><mfrac>{row}<mn>7</mn></mfrac></math>",
             "exp": f"<math><msup><mi>q</mi>{row}</msup></math>", "cell": f"<math><mtable><mtr><mtd>{body}</mtd><mtd><mn>7</mn></mtd></mtr></mtable></math>",
-            "under": f"<math><munder><mo>∑</mo>{row}</munder></math>"}[ctx]
+            "under": f"<math><munder><mo>∑</mo>{row}</munder></math>",
+            # three levels down, in a place the chemistry scan walks into: the subscript of a cell of a determinant (9b2141d)
+            "detsub": f"<math><mo>|</mo><mtable><mtr><mtd><msub><mi>X</mi>{row}</msub></mtd><mtd><mn>7</mn></mtd></mtr></mtable><mo>|</mo></math>"}[ctx]
 
 
 def locate(tree, ctx):
@@ -78,7 +80,7 @@ def locate(tree, ctx):
     root = only(tree)
     if ctx == "top":
         return root
-    want = {"sqrt": "msqrt", "num": "mfrac", "exp": "msup", "cell": "mtd", "under": "munder"}[ctx]
+    want = {"sqrt": "msqrt", "num": "mfrac", "exp": "msup", "cell": "mtd", "under": "munder", "detsub": "msub"}[ctx]
 
     def find(t):
         if t["tag"] == want:
@@ -216,7 +218,7 @@ def run(tier):
     cases = []          # (sequence of 'a' / operator, wf by the model or None, ctx)
     for i, st in enumerate(seqs):
         seq = ["a" if s == "a" else CLASS_SYM[s] for s in st["toks"]]
-        cases.append((seq, None, "top" if tier == "quick" and i % 5 else CONTEXTS[i % len(CONTEXTS)]))
+        cases.append((seq, bool(st["wf"]), "top" if tier == "quick" and i % 5 else CONTEXTS[i % len(CONTEXTS)]))
     # recorded examples of the open finding C03-form-choice-looks-only-at-next-token, judged in every run
     for seq in (["-", "[", "a", "+", "a", "]", "×", "a"], ["-", "+", "a", "×", "a"], ["¬", "-", "a", "∧", "a"]):
         cases.append((seq, None, "top"))
@@ -249,13 +251,15 @@ def run(tier):
             if j < n - 1:
                 seq.append(r2.choice(by_kind["infix"]))
         seq += [fence[1]] * len(opened_at)
-        cases.append((seq, None, CONTEXTS[i % len(CONTEXTS)]))
+        cases.append((seq, True, CONTEXTS[i % len(CONTEXTS)]))
     cases = [c + ({},) for c in cases]
     # embellished operators: one operator of a row (never a fence: a script on a closing fence is an idiom of its own) carries limits
     # or a subscript - the row has to be bracketed exactly as without them. Over the TLC-enumerated sequences and the random rows.
     fences = set("()[]{}|‖∥")
     base = list(cases)
     for i, (seq, wf, ctx, _) in enumerate(base):
+        if wf is not True:
+            continue        # only rows that ARE rows: what a second parse makes of operators in a heap is not the property's business
         if tier == "quick" and i % 3:
             continue
         r2 = random.Random(C.seed() * 15485863 + i)
